@@ -154,7 +154,8 @@ int main(int argc, char** argv) {
                 if (r.chance(5)) {   // nested frames (or their rings as concentric closed lines): the result has shells inside holes of other shells
                     A = gen.nestedFrames(); nested = true;
                     if (r.chance(40)) { GGeom L; L.container = 1; for (auto& e : A.elems) for (auto& rg : e.rings) { GElem l; l.kind = 1; l.rings.push_back(rg); L.elems.push_back(l); } A = L; out.count("concentric_closed_lines"); } } }
-            else if (mode < 86) { p.mode = "buf"; p.ss = 1; A = gen.geom(1, false, false); }          // single-sided through BufferParams: lineal input
+            else if (mode < 86) { p.mode = "buf"; p.ss = 1; bool multi = r.chance(55); A = gen.geom(1, multi, false);          // single-sided through BufferParams: lineal input,
+                if (multi) out.count("singlesided_multipart_input"); }                                    // more often than not with several parts (their one-sided buffers are unioned)
             else if (mode < 95) { p.mode = "oc"; A.container = 0; A.elems.push_back(r.chance(70) ? gen.line() : gen.polygon()); }      // the offset curve is defined per element: single elements only
             else { p.mode = "ssb"; A.container = 0; A.elems.push_back(gen.line()); }
             // arbitrary-double similarity: rotation, scale 1e-3..1e6, moderate offset
